@@ -400,12 +400,18 @@ def run_sim(binary, args=(), nodes=1, ppn=1, env=None, sim_seed=1, policy="unifo
             bo, be = proc.communicate()
         out, err, rc = bo.decode(errors="replace"), be.decode(errors="replace"), proc.returncode
         outs = {}
+        oversize = False
         for f in os.listdir(tmpd):
             if f.startswith("out."):
+                if os.path.getsize(os.path.join(tmpd, f)) > (300 << 20):
+                    oversize = True
+                    continue
                 with open(os.path.join(tmpd, f), errors="replace") as fh:
                     outs[int(f[4:])] = fh.read().split("\n")[:-1]
         log = []
-        if want_log and os.path.exists(logp):
+        if want_log and os.path.exists(logp) and os.path.getsize(logp) > (900 << 20):
+            oversize = True
+        elif want_log and os.path.exists(logp):
             with open(logp, errors="replace") as f:
                 log = f.read().split("\n")
             if log and log[-1] == "":
@@ -417,6 +423,8 @@ def run_sim(binary, args=(), nodes=1, ppn=1, env=None, sim_seed=1, policy="unifo
     if m:
         verdict, steps = m.group(1), int(m.group(2))
         counts = {k: int(v) for k, v in kv(m.group(3)).items()}
+    if oversize and verdict == "ok":
+        verdict = "output-budget"
     m = re.search(r"SIMMPI blocked (.*)", out)
     if m:
         blocked = m.group(1).strip()
